@@ -369,6 +369,154 @@ theorem recvErr_inv (W : World Node VH V) (ht : Ht) (m : Mux Node VH V) (aw : Na
   · intro u c hc
     exact h.infl u c (List.mem_of_mem_eraseP hc)
 
+/-- a leaf for a request that waits for it: what `feedLeaf` does is `Sys.supplyLeaf` -/
+theorem feedLeaf_sys (W : World Node VH V) (hOK : W.OK) (s : Sys Node VH V) (hs : SysInv W s) (i : Nat) (r : Req Node VH V)
+    (l : Nat) (hi : s.reqs[i]? = some (r, some (.leaf l))) :
+    ∃ ps' r', feedLeaf W.env s.ps r l = .ok (ps', r') ∧
+      SysInv W { ps := ps', cache := s.cache, reqs := s.reqs.set i (r', none) } ∧
+      sysMeasure W.env.leaves.length { ps := ps', cache := s.cache, reqs := s.reqs.set i (r', none) } <
+        sysMeasure W.env.leaves.length s ∧ r.isCompleted = false := by
+  rcases supplyLeaf_ok W hOK s hs i with ⟨s', e, hs', hm⟩ | ⟨_, hne⟩
+  · unfold supplyLeaf at e
+    rw [hi] at e
+    simp only at e
+    unfold forceLeaf at e
+    have hget : (setReq s i (r, none)).reqs[i]? = some (r, none) := getElem?_set_self hi
+    rw [hget] at e
+    unfold feedLeaf
+    cases hleaf : W.env.leaves[l]? with
+    | none => rw [hleaf] at e; cases e
+    | some leaf =>
+      rw [hleaf] at e
+      simp only at e ⊢
+      cases hcmp : r.isCompleted with
+      | true => rw [hcmp] at e; cases e
+      | false =>
+        rw [hcmp] at e
+        simp only [Bool.false_eq_true, if_false] at e
+        cases hst : r.st with
+        | seeking => rw [hst] at e; cases e
+        | completed t => rw [hst] at e; cases e
+        | fetchingLeaf dels it needed =>
+          rw [hst] at e
+          simp only at e ⊢
+          cases hc : continueLeafFetch W.env r (some leaf) with
+          | panic x => rw [hc] at e; cases e
+          | err x => rw [hc] at e; cases e
+          | ok r' =>
+            rw [hc] at e
+            simp only at e ⊢
+            cases e
+            have : setReq (setReq s i (r, none)) i (r', none) =
+                { ps := s.ps, cache := s.cache, reqs := s.reqs.set i (r', none) } := by
+              simp [setReq, List.set_set]
+            rw [this] at hs' hm
+            exact ⟨_, _, rfl, hs', hm, by first | rfl | trivial⟩
+        | fetchingLeaves page range it needed coll =>
+          rw [hst] at e
+          simp only at e ⊢
+          have e0 : (setReq s i (r, none)).ps = s.ps := rfl
+          rw [e0] at e
+          cases hc : continueLeavesFetch W.env s.ps r (some leaf) with
+          | panic x => rw [hc] at e; cases e
+          | err x => rw [hc] at e; cases e
+          | ok x =>
+            obtain ⟨ps', r'⟩ := x
+            rw [hc] at e
+            simp only at e ⊢
+            cases e
+            have : ({ setReq s i (r, none) with ps := ps', reqs := (setReq s i (r, none)).reqs.set i (r', none) } : Sys Node VH V) =
+                { ps := ps', cache := s.cache, reqs := s.reqs.set i (r', none) } := by
+              simp [setReq, List.set_set]
+            rw [this] at hs' hm
+            exact ⟨_, _, rfl, hs', hm, by first | rfl | trivial⟩
+  · exact absurd hi (hne r l)
+
+/-- a parked load (occupied, not submitted, in neither queue) is probed: `submit_idle_page_load` -/
+theorem submitIdleLoad_inv (W : World Node VH V) (ht : Ht) (m : Mux Node VH V) (aw : Nat → Option Query)
+    (h : MInv W ht m aw) (si : Nat) (pid : PageId) (k : Nat) (hg : m.slab.get si = some (.merkle pid k false))
+    (hnl : si ∉ m.idleLoads) :
+    ∃ m', submitIdleLoad ht m si = .ok m' ∧ MInv W ht m' aw ∧ m'.reqs = m.reqs ∧ m'.processed = m.processed ∧
+      m'.idleReqs = m.idleReqs ∧ m'.idleLoads = m.idleLoads ∧ m'.waiters = m.waiters ∧ m'.ps = m.ps ∧ m'.cache = m.cache ∧
+      m'.maxInflight = m.maxInflight := by
+  obtain ⟨hpf, j, b, hj, hlab, hbefore, hk⟩ := h.merk si pid k false hg
+  simp only [Bool.false_eq_true, if_false] at hk
+  have hjl : j < (ht.probes pid).length := (List.getElem?_eq_some_iff.1 hj).1
+  have hkl : k < (ht.probes pid).length := by omega
+  have hni : si ∉ m.inflight.map (·.1) := by
+    intro hm
+    obtain ⟨⟨u, c⟩, hc, hu⟩ := List.mem_map.1 hm
+    simp only at hu; subst hu
+    rcases h.infl u c hc with ⟨_, _, _, e, _⟩ | ⟨_, e, _⟩
+    · rw [hg] at e; cases e
+    · rw [hg] at e; cases e
+  unfold submitIdleLoad
+  rw [hg]
+  simp only
+  rw [List.getElem?_eq_getElem hkl]
+  simp only
+  obtain ⟨p1, p2, p3⟩ := Slab.put_ok m.slab h.slabwf si _ (.merkle pid (k + 1) true) hg
+  refine ⟨_, rfl, ?_, rfl, rfl, rfl, rfl, rfl, rfl, rfl, rfl⟩
+  refine ⟨h.sys, h.wkeys, h.wmem, h.idleN, h.idle, p1, ?_, ?_, ?_, h.idleLN, ?_⟩
+  · intro si' pid' k' sub' hg'
+    by_cases hs : si' = si
+    · subst hs
+      simp only at hg'
+      rw [p2] at hg'
+      cases hg'
+      exact ⟨hpf, j, b, hj, hlab, hbefore, by simp; omega⟩
+    · simp only at hg'
+      rw [p3 si' hs] at hg'
+      exact h.merk si' pid' k' sub' hg'
+  · simp only [List.map_append, List.map_cons, List.map_nil]
+    rw [List.nodup_append]
+    refine ⟨h.inflN, by simp, ?_⟩
+    intro a ha b' hb
+    have : b' = si := by simpa using hb
+    subst this
+    exact fun e => hni (e ▸ ha)
+  · intro u c hc
+    simp only at hc ⊢
+    rcases List.mem_append.1 hc with h1 | h1
+    · have hne : u ≠ si := fun e => hni (by rw [← e]; exact List.mem_map.2 ⟨(u, c), h1, rfl⟩)
+      unfold InflOK
+      rw [p3 u hne]
+      exact h.infl u c h1
+    · have : (u, c) = (si, Cmd.bucket (ht.probes pid)[k]) := by simpa using h1
+      cases this
+      exact .inl ⟨pid, k + 1, _, p2, rfl, by omega, by simp [List.getElem?_eq_getElem hkl]⟩
+  · intro si' hs'
+    have hne : si' ≠ si := fun e => hnl (e ▸ hs')
+    simp only
+    rw [p3 si' hne]
+    exact h.idleL si' hs'
+
+theorem minv_idleLoads_tail {W : World Node VH V} {ht : Ht} {m : Mux Node VH V} {aw : Nat → Option Query}
+    (h : MInv W ht m aw) {si : Nat} {rest : List Nat} (hl : m.idleLoads = si :: rest) :
+    MInv W ht { m with idleLoads := rest } aw ∧ si ∉ rest ∧ ∃ pid k, m.slab.get si = some (.merkle pid k false) := by
+  have hn := h.idleLN
+  rw [hl] at hn
+  have hn' := List.nodup_cons.1 hn
+  refine ⟨⟨h.sys, h.wkeys, h.wmem, h.idleN, h.idle, h.slabwf, h.merk, h.inflN, h.infl, hn'.2, ?_⟩, hn'.1, ?_⟩
+  · intro s hs
+    exact h.idleL s (by rw [hl]; exact List.mem_cons_of_mem _ hs)
+  · exact h.idleL si (by rw [hl]; exact List.mem_cons_self ..)
+
+/-- `submit_idle_page_loads` -/
+theorem submitIdleLoads_inv (W : World Node VH V) (ht : Ht) (aw : Nat → Option Query) : ∀ (l : List Nat) (m : Mux Node VH V),
+    MInv W ht m aw → m.idleLoads = l →
+    ∃ m', submitIdleLoads ht l m = .ok m' ∧ MInv W ht m' aw ∧ m'.reqs = m.reqs ∧ m'.processed = m.processed ∧
+      m'.idleReqs = m.idleReqs ∧ m'.idleLoads = [] ∧ m'.waiters = m.waiters ∧ m'.maxInflight = m.maxInflight
+  | [], m, h, hl => ⟨m, rfl, h, rfl, rfl, rfl, hl, rfl, rfl⟩
+  | si :: rest, m, h, hl => by
+    obtain ⟨h1, hnr, pid, k, hg⟩ := minv_idleLoads_tail h hl
+    obtain ⟨m1, e1, i1, f1, f2, f3, f4, f5, _, _, f8⟩ := submitIdleLoad_inv W ht _ aw h1 si pid k hg hnr
+    obtain ⟨m2, e2, i2, g1, g2, g3, g4, g5, g6⟩ := submitIdleLoads_inv W ht aw rest m1 i1 f4
+    unfold submitIdleLoads
+    rw [e1]
+    simp only
+    exact ⟨m2, e2, i2, g1.trans f1, g2.trans f2, g3.trans f3, g4, g5.trans f5, g6.trans f8⟩
+
 end inv
 
 end Nomt.Seeker
